@@ -31,8 +31,12 @@ func c39ConcRun(c c39ConcCase) verifkit.Result {
 		return verifkit.Fail("setup:NewFloodgate", "key of %d bytes rejected: %v", len(c.Key), err)
 	}
 	hostnames := make([]string, len(c.Records))
+	c.Records = append([]c39Fields(nil), c.Records...)
 	for i, f := range c.Records {
 		hostnames[i] = c.Hosts[i] + "\x00" + string(c39RefEncrypt(c.Key, c.IVs[i], []byte(c39RefToString(f))))
+		if f.DeviceOS < 0 || f.DeviceOS > 15 {
+			c.Records[i].DeviceOS = 0 // decoded: an id without a name is UNKNOWN (Floodgate's DeviceOs.fromId)
+		}
 	}
 
 	// sequential: results handed out earlier stay what they were after later calls
